@@ -112,14 +112,17 @@ RandomAccessIterator3 parallel_multiway_merge_base(
     for (size_t s = 0; s < num_threads; ++s)
         chunks[s].resize(num_seqs);
 
-    if (mwmsa == MWMSA_SAMPLING)
+    // sampling splitting always distributes the complete sequences among the
+    // threads, hence it can only be used when everything is merged. For
+    // size < total_size the exact splitting determines where to stop.
+    if (mwmsa == MWMSA_SAMPLING && static_cast<DiffType>(size) == total_size)
     {
         multiway_merge_sampling_splitting<Stable>(
             seqs_ne.begin(), seqs_ne.end(), static_cast<DiffType>(size),
             total_size, comp, chunks.data(), num_threads,
             parallel_multiway_merge_oversampling);
     }
-    else // (mwmsa == MWMSA_EXACT)
+    else // (mwmsa == MWMSA_EXACT || size < total_size)
     {
         multiway_merge_exact_splitting<Stable>(
             seqs_ne.begin(), seqs_ne.end(), static_cast<DiffType>(size),
